@@ -8,12 +8,15 @@ from pyvc.interp import SObj, PyExc, exc_class, get_attr
 from pyvc.libmodels import str_replace_all
 
 LEVEL = 'proof'
+LEAN_LEMMAS = ['quote_roundtrip']
 TRUSTED = ['CQL lexical grammar (Cassandra Lexer.g): IDENT = LETTER (LETTER | DIGIT | \'_\')* read back lower-cased; QUOTED_NAME = \'"\' (~\'"\' | \'""\')+ \'"\' with "" standing for "; '
            'STRING_LITERAL = "\'" (~"\'" | "\'\'")* "\'" with \'\' standing for \'; the reserved words are org.apache.cassandra.cql3.ReservedKeywords (4.x) transcribed in CASSANDRA_RESERVED',
            'E-STR: str.replace replaces every occurrence (z3/cvc5 str.replace_all), %-formatting with a literal template concatenates, lower() of an ASCII string without upper-case letters is the string itself, '
            'Python regex $ = end of string or before a final newline',
-           'lemma L1 (unquote(q + replace_all(s, q, q+q) + q) == s and the quoted text contains no unpaired quote) is an induction over strings the solvers do not do: checked by the bounded stand-in '
-           '(exhaustive over a 4-letter alphabet to length 7 through the real functions and an independent lexer)',
+           'lemma L1 (the lexer reads q + replace_all(s, q, q+q) + q back as exactly s and the token ends at the closing quote) is an induction over strings the solvers do not do: proved as '
+           'quote_roundtrip in lemmas/Lemmas.lean over the spec functions esc / unesc and elaborated by lean on every run. Assumed: SMT-LIB str.replace_all with a one-character pattern is esc, and Cassandra\'s lexer '
+           'reads a quoted token as unesc (Lexer.g: a doubled quote is one quote, a single quote ends the token); the bounded stand-in (exhaustive over a 4-letter alphabet to length 7 through the real functions and '
+           'an independent lexer) stays as a probe of both identifications',
            'the regex subset translated to z3 regular expressions (pyvc.libmodels._regex_to_z3) and the frame obligation that the two patterns used are inside it']
 EXPLANATION = 'string postconditions (z3 strings / regular languages, cvc5 as fall-back) on the real escape_name / maybe_escape_name / is_valid_name / protect_name(s) / protect_value / cql_quote and the USE statement text of Connection.set_keyspace_*; reserved-word set inclusion; bounded lexer round trip'
 
